@@ -1,5 +1,5 @@
 #!/bin/sh
-cd "$(dirname "$0")" 2>/dev/null || true
+cd "$(dirname "$0")/.."
 for p in C09 C12 C15 C16 C17 C19 C11 C13 C14 C18 C20 C10 C04 C05 C06 C03 C02 C08 C07 C01; do
   echo "=== $p"; mkdir -p ev_thorough
   t0=$(date +%s)
